@@ -622,6 +622,14 @@ def to_int(e):
         r = to_int(a[0])
     elif op == 'bits':
         r = (to_int(a[0]) / z3.IntVal(1 << a[1])) % z3.IntVal(1 << a[2])
+    elif op == 'bl':
+        x = to_int(a[0])
+        r = z3.IntVal(0)
+        for k in range(a[0].hi.bit_length()):
+            r = z3.If(x >= (1 << k), z3.IntVal(k + 1), r)
+    elif op == 'sxt':
+        h = 1 << (a[1] - 1)
+        r = ((to_int(a[0]) + h) % z3.IntVal(1 << a[1])) - h
     elif op == 'cat':
         r = to_int(a[0]) * (1 << a[2]) + to_int(a[1])
     elif op == 'ite':
